@@ -11,6 +11,7 @@ import base64
 import json
 import os
 import sys
+import time
 
 sys.set_int_max_str_digits(0)  # the harness itself prints huge ints; the implementation subprocess keeps the default
 
@@ -22,6 +23,28 @@ IMPORTS = ("From XV Require Import Base.Str Base.Eqb Model.ConvBool Model.ConvIn
 WS = " \t\n\r"
 PYWS = "\x0b\x0c\x1c\x1d\x1e\x1f\x85\xa0      　"
 LAX = "+-_ .eE0159١٢２² \t\n\x1c\xa0"
+
+
+def coq_bad(tag, ctype, pred, terms, workers=16):
+    """coq_bad_indices with the cases spread over `workers` shards of balanced size
+    (large terms — 4300-digit numbers — would otherwise pile up in one shard)"""
+    n = len(terms)
+    if n == 0:
+        return []
+    k = min(workers, max(1, n // 8))
+    size = -(-n // k)
+    order = sorted(range(n), key=lambda i: -len(terms[i]))
+    buckets = [[] for _ in range(k)]
+    for j, i in enumerate(order):
+        b = j % k if (j // k) % 2 == 0 else k - 1 - (j % k)
+        if len(buckets[b]) >= size:
+            b = min(range(k), key=lambda x: len(buckets[x]))
+        buckets[b].append(i)
+    perm = [i for b in buckets for i in b]
+    # buckets may be shorter than `size` only at the end: pad by re-flowing
+    perm_terms = [terms[i] for i in perm]
+    bad = coq_bad_indices(tag, IMPORTS, "", ctype, pred, perm_terms, shard=size)
+    return sorted(perm[i] for i in bad)
 
 
 def ws(r, p=0.5):
@@ -63,29 +86,42 @@ def g_int_value(r):
         return r.choice([0, 1, -1, 9, 10, -10, 99, 100, 32767, -32768, 32768, -32769, 2147483647, -2147483648,
                          2147483648, -2147483649, 9223372036854775807, -9223372036854775808, 9223372036854775808,
                          -9223372036854775809])
-    if k < 0.8:
+    if k < 0.85:
         return r.randint(-10 ** r.randint(1, 40), 10 ** r.randint(1, 40))
-    if k < 0.93:
-        return r.choice([1, -1]) * r.randint(10 ** 100, 10 ** r.randint(101, 4200))
-    # around the interpreter's digit limit
-    d = r.choice([4298, 4299, 4300, 4301, 4302, 5000])
-    return r.choice([1, -1]) * r.choice([10 ** (d - 1), 10 ** d - 1, r.randint(10 ** (d - 1), 10 ** d - 1)])
+    return r.choice([1, -1]) * r.randint(10 ** 100, 10 ** r.randint(101, 400))
+
+
+def near_limit_ints(r):
+    """around the interpreter's int<->str digit limit (few: the terms are large)"""
+    out = []
+    for d in (4299, 4300, 4301, 5000):
+        out += [10 ** (d - 1), -(10 ** d - 1)]
+    out.append(r.choice([1, -1]) * r.randint(10 ** 4299, 10 ** 4300 - 1))
+    out.append(r.choice([1, -1]) * r.randint(10 ** 4300, 10 ** 4301 - 1))
+    out.append(r.randint(10 ** 1000, 10 ** r.randint(1001, 4200)))
+    return out
 
 
 def g_integer_sp(r):
     """an xs:integer spelling: (sign, digits)"""
     sign = r.choice(["", "", "+", "-"])
     k = r.random()
-    if k < 0.6:
+    if k < 0.65:
         ds = str(abs(g_int_value(r)))
-    elif k < 0.8:
-        ds = "0" * r.randint(1, 6) + str(r.randint(0, 10 ** r.randint(0, 20)))
     elif k < 0.9:
-        ds = "0" * r.randint(1, 5)
+        ds = "0" * r.randint(1, 6) + str(r.randint(0, 10 ** r.randint(0, 20)))
     else:
-        n = r.choice([4299, 4300, 4301])
-        ds = r.choice(["0" * n, "9" * n, "1" + "0" * (n - 1)])
+        ds = "0" * r.randint(1, 5)
     return sign, ds
+
+
+def near_limit_spellings(r):
+    out = []
+    for n in (4299, 4300, 4301):
+        out += [("", "9" * n), ("-", "1" + "0" * (n - 1)), ("+", "0" * n)]
+    out.append(("", "0" * 10 + str(r.randint(10 ** 4280, 10 ** 4289))))
+    out.append(("-", "0" * 12 + str(r.randint(10 ** 4288, 10 ** 4289))))
+    return out
 
 
 def sp_term(sign, ds):
@@ -178,20 +214,18 @@ def run(ck: Check):
         add({"op": "roundtrip", "type": "bool", "v": {"t": "bool", "v": v}}, kind="bool_ser")
 
     # ---------------- int
-    for _ in range(150 * N):
-        sign, ds = g_integer_sp(r)
+    for sign, ds in [g_integer_sp(r) for _ in range(150 * N)] + near_limit_spellings(r):
         a, b = ws(r), ws(r)
         add({"op": "deser", "types": ["int"], "s": a + sign + ds + b}, kind="int_deser", sp=(a, sign, ds, b))
     for s in INT_BAD:
         add({"op": "deser", "types": ["int"], "s": s}, kind="int_deser", sp=None)
     for _ in range(120 * N):
         sign, ds = g_integer_sp(r)
-        s = mutate(r, (sign + ds)[:r.choice([3, 8, 30, 5000])])
+        s = mutate(r, (sign + ds)[:r.choice([3, 8, 30, 500])])
         if r.random() < 0.3:
             s = r.choice(PYWS + WS) + s + r.choice(PYWS + WS)
         add({"op": "deser", "types": ["int"], "s": s}, kind="int_deser", sp=None)
-    for _ in range(120 * N):
-        z = g_int_value(r)
+    for z in [g_int_value(r) for _ in range(120 * N)] + near_limit_ints(r):
         add({"op": "roundtrip", "type": "int", "v": {"t": "int", "v": hex(z)}}, kind="int_ser", z=z)
         add({"op": "from_value", "v": {"t": "int", "v": hex(z)}}, kind="int_datatype", z=z)
 
@@ -266,13 +300,32 @@ def run(ck: Check):
     def run_pred(tag, ctype, pred, items, terms):
         if not items:
             return []
-        bad = coq_bad_indices(f"c05_{tag}", IMPORTS, "", ctype, pred, terms)
+        t0 = time.time()
+        bad = coq_bad(f"c05_{tag}", ctype, pred, terms)
+        timings[tag] = round(time.time() - t0, 1)
         return [items[i] for i in bad]
+
+    def multi(tag, ctype, preds, items, terms):
+        """several predicates over the same cases: one combined pass; only if it
+        reports something is each predicate run on the reported cases"""
+        out = {p: [] for p in preds}
+        if not items:
+            return out
+        comb = "fun c => " + " && ".join(f"{p} c" for p in preds)
+        t0 = time.time()
+        bad = coq_bad(f"c05_{tag}", ctype, comb, terms)
+        timings[tag] = round(time.time() - t0, 1)
+        if bad:
+            sub_items, sub_terms = [items[i] for i in bad], [terms[i] for i in bad]
+            for p in preds:
+                out[p] = [sub_items[i] for i in coq_bad(f"c05_{tag}_{p}", ctype, p, sub_terms)]
+        return out
 
     def count_true(tag, ctype, pred, items, terms):
         return len(items) - len(run_pred(tag, ctype, pred, items, terms))
 
     distinct = set()
+    timings = {}
 
     def obs_of(rs, f):
         return "None" if "err" in rs else f"(Some {f(rs['ok'])})"
@@ -307,19 +360,19 @@ def run(ck: Check):
     sp_terms = [f"({cstr(it[3]['sp'][0])}, {sp_term(it[3]['sp'][1], it[3]['sp'][2])}, {cstr(it[3]['sp'][3])}, {obs_of(it[2], lambda v: hexZ(zval(v['v'])))})"
                 for it in sp_items]
     t_sp = "str * integer_sp * str * option Z"
-    for it in run_pred("acc_int", t_sp, "oracle_int_accepts", sp_items, sp_terms):
+    bad = multi("acc_int", t_sp, ["oracle_int_accepts", "guard_int_accepts"], sp_items, sp_terms)
+    for it in bad["oracle_int_accepts"]:
         ck.failure("int-xsd-valid-not-accepted", f"xs:integer {it[1]['s'][:60]!r} gave {str(it[2])[:80]}", {"op": it[1], "impl": it[2]})
-    vac = run_pred("guard_int", t_sp, "guard_int_accepts", sp_items, sp_terms)
-    if vac:
-        ck.failure("harness-generator-invalid-spelling", f"generator produced a non-wf integer spelling {vac[0][1]['s'][:40]!r}", {"op": vac[0][1]})
-    n_over = count_true("over_int", t_sp, "int_over_limit", sp_items, sp_terms)
-    ck.cov["int_spellings_beyond_interpreter_digit_limit"] = n_over
+    for it in bad["guard_int_accepts"][:1]:
+        ck.failure("harness-generator-invalid-spelling", f"generator produced a non-wf integer spelling {it[1]['s'][:40]!r}", {"op": it[1]})
+    ck.cov["int_spellings_beyond_interpreter_digit_limit"] = sum(1 for it in sp_items if len(it[3]["sp"][2]) > 4300)
     items = items_of("int_ser")
     terms = [f"({hexZ(it[3]['z'])}, {copt(it[2].get('ok'), cstr)})" for it in items]
     distinct |= {("int_ser", it[3]["z"]) for it in items}
-    for it in run_pred("agree_int_ser", "Z * option str", "agree_int_ser", items, terms):
-        ck.failure("corr-int-ser", f"model and implementation disagree on str(int) of a {len(str(abs(it[3]['z'])) if abs(it[3]['z']) < 10**4000 else '????')}-digit int", {"op": it[1], "impl": it[2]})
-    for it in run_pred("valid_int_ser", "Z * option str", "oracle_int_ser_valid", items, terms):
+    bad = multi("int_ser", "Z * option str", ["agree_int_ser", "oracle_int_ser_valid"], items, terms)
+    for it in bad["agree_int_ser"]:
+        ck.failure("corr-int-ser", f"model and implementation disagree on str(int) of a {len(str(abs(it[3]['z'])))}-digit int", {"op": it[1], "impl": it[2]})
+    for it in bad["oracle_int_ser_valid"]:
         ck.failure("int-ser-not-xsd-valid", f"serialize(int) = {str(it[2])[:80]} is not the xs:integer form of the value", {"op": it[1], "impl": it[2]})
     for it in items:
         if "ok" in it[2] and not it[2].get("same"):
@@ -391,7 +444,7 @@ def run(ck: Check):
     pitems = sorted(by_i.items())
     terms = []
     for i, d in pitems:
-        singles = clist(d["single"], lambda p: f"({ty_term(p[0])}, {obs_of(p[1], value_term)})", "pytype * option value")
+        singles = clist(d["single"], lambda p: f"({ty_term(p[0])}, {obs_of(p[1], value_term)})", "(pytype * option value)")
         terms.append(f"({singles}, {obs_of(d['sorted'], value_term)})")
     for i, d in run_pred("priority", "list (pytype * option value) * option value", "oracle_priority", pitems, terms):
         ck.failure("priority-order-not-respected", f"deserialize({d['op']['s']!r}, sorted {d['op']['types']}) = {d['sorted']} but singly: {d['single']}",
@@ -405,6 +458,7 @@ def run(ck: Check):
     for m in meta:
         kinds[m["kind"]] = kinds.get(m["kind"], 0) + 1
     ck.cov["input_distribution"] = kinds
+    ck.cov["coq_seconds_per_predicate"] = timings
     ck.cov["accepted_fraction"] = round(sum(1 for x in res if "ok" in x) / max(1, len(res)), 3)
     ck.cov["samples"] = [{"op": str(ops[i])[:200], "impl": str(res[i])[:200]} for i in (0, len(ops) // 3, len(ops) // 2, len(ops) - 5, len(ops) - 1)]
     return ck.finish(obligations=obligations, discharged=discharged,
